@@ -345,6 +345,10 @@ def run_plan(plan, sched_seed=None, sched_replay=None):
 
     total = sum(ep.sent[0] + ep.sent[1] for ep in run.eps.values())
 
+    if run.connect_error is not None:
+        world.violation('connect-failed', 'connect() failed without any '
+                        'fault: %r' % (run.connect_error,))
+
     for err in run.open_errors:
         world.violation('open-failed', 'channel %d failed to open: %r' % err)
 
